@@ -232,7 +232,7 @@ func init() {
 func init() {
 	properties["C16"] = Property{
 		Level: "exploration",
-		Rule:  "one case = one job life (add -> fire / remove / replace) in a recorded run; in-memory cron: 13 runs per round in parallel (directed patterns: remove the head and stay quiet, replace the head by a later time, add earlier than the head, add during suspension, pause, remove a recurring job during its run, replace a recurring job (or remove and re-add it) so that old and new callback run at the same time and the old one returns first, recurring + one-shot; and random mixes over 4 ids with due 50-800 ms, removals, suspend/resume/pause windows, slow callbacks), Timeline walked under the cron's lock at quiescent points; Bolt-backed cron (overlay test in package main): operation sequences with harness-driven work() ticks, fires observed as hits on an httptest server, jobs<p>/time<p> buckets compared key for key after every operation and after every close/reopen; then a concurrent phase: a goroutine loops over the work() transactions of all partitions against an endpoint that holds each request open 40-120 ms while Add/Delete/Get run, with Deletes issued at the moment a request of that job is in flight (no request after Delete returned, none before due, recurring not more often than its occurrences, buckets compared at quiescent points); non-trivial = the job was replaced, removed, or overlapped a suspend/pause window (crolt: was deleted, duplicated or lived across a reopen); distinct by (run seed, pattern, job id, generation); in-memory patterns added in round 2: a recurring callback that returns an error once, 8 concurrent Adds of one id (twice) then Rem, schedules without an occurrence (30 February) or years away; crolt prelude: re-add of a fired one-shot's id inside the eviction window; `command-burst` (14 Pause calls in a row, then the pending job must fire); seven bursts of concurrent Adds",
+		Rule:  "one case = one job life (add -> fire / remove / replace) in a recorded run; in-memory cron: 13 runs per round in parallel (directed patterns: remove the head and stay quiet, replace the head by a later time, add earlier than the head, add during suspension, pause, remove a recurring job during its run, replace a recurring job (or remove and re-add it) so that old and new callback run at the same time and the old one returns first, recurring + one-shot; and random mixes over 4 ids with due 50-800 ms, removals, suspend/resume/pause windows, slow callbacks), Timeline walked under the cron's lock at quiescent points; Bolt-backed cron (overlay test in package main): operation sequences with harness-driven work() ticks, fires observed as hits on an httptest server, jobs<p>/time<p> buckets compared key for key after every operation and after every close/reopen; then a concurrent phase: a goroutine loops over the work() transactions of all partitions against an endpoint that holds each request open 40-120 ms while Add/Delete/Get run, with Deletes issued at the moment a request of that job is in flight (no request after Delete returned, none before due, recurring not more often than its occurrences, buckets compared at quiescent points); non-trivial = the job was replaced, removed, or overlapped a suspend/pause window (crolt: was deleted, duplicated or lived across a reopen); distinct by (run seed, pattern, job id, generation); in-memory patterns added in round 2: a recurring callback that returns an error once, 8 concurrent Adds of one id (twice) then Rem, schedules without an occurrence (30 February) or years away; crolt prelude: re-add of a fired one-shot's id inside the eviction window; `command-burst` (14 Pause calls in a row, then the pending job must fire); seven bursts of concurrent Adds; mem patterns `reversed-range-schedule` (cron expressions that make cronexpr panic) and `recurring-at-the-limit` (Limit 2, jobs added while the recurring job runs); crolt phases: six concurrent Adds of one id, an eviction due in the same scan as a due job, an every-second job polled every 50 ms, a schedule without occurrence, a 1 s jitter (no request before its occurrence, none twice)",
 		Floor: [2]int{30, 100},
 		Assumptions: []string{"no-early-fire and no-fire-after-Rem are judged on monotonic call/return stamps; 'fires when due' is bounded progress (due + 1.5 s, outside suspend/pause windows) judged only when a canary timer was on time", "crolt: a job's due time is the time in its own TId key (jitter set to 0)"},
 		Stages: []Stage{
